@@ -16,11 +16,20 @@ from .common import purge_loop_facts, Membership, canon_key, is_saved_copy_resto
 
 
 def discover_caches(model: Model, cls: ClassInfo, cache_cls: str = "DictCache") -> List[str]:
+    import ast as _ast
     out = []
     for f in model.fields_assigned_in_init(cls):
         t = model.field_type(cls, f)
         if isinstance(t, ClassInfo) and t.name == cache_cls:
             out.append(f)
+    # memo containers bound in the class body (shared by all instances - R-FRESH reports that; the typestate is the same)
+    for k in model.mro(cls):
+        for st in k.node.body:
+            if isinstance(st, (_ast.Assign, _ast.AnnAssign)) and st.value is not None:
+                tg = st.targets[0] if isinstance(st, _ast.Assign) else st.target
+                if isinstance(tg, _ast.Name) and isinstance(st.value, _ast.Call) and _ast.unparse(st.value.func).split(".")[-1] == cache_cls \
+                        and tg.id not in out:
+                    out.append(tg.id)
     return sorted(out)
 
 
@@ -72,21 +81,28 @@ class DepCollector(Domain):
 
 def derive_dependencies(model: Model, cls: ClassInfo, caches: List[str]) -> Tuple[Dict[str, Set[str]], Dict[str, str]]:
     """cache -> set of dependency kinds; cache -> name of the getter that fills it."""
-    fillers: Dict[str, str] = {}
+    # a fill site is a `self.<cache>.set(k, expr)` call, whatever guards it (`if cache.empty`, `if k not in cache.value`, ...);
+    # a cache may be filled by several getters
+    fill_methods: Dict[str, List[str]] = {}
     for name, f in cls.methods.items():
         for n in ast.walk(f.node):
-            if isinstance(n, ast.If) and isinstance(n.test, ast.Attribute) and n.test.attr == "empty":
-                v = n.test.value
-                if isinstance(v, ast.Attribute) and isinstance(v.value, ast.Name) and v.value.id == "self" \
-                        and v.attr in caches:
-                    fillers[v.attr] = name
+            if isinstance(n, ast.Call) and isinstance(n.func, ast.Attribute) and n.func.attr == "set":
+                v = n.func.value
+                if isinstance(v, ast.Attribute) and isinstance(v.value, ast.Name) and v.value.id == "self" and v.attr in caches \
+                        and name not in fill_methods.get(v.attr, []):
+                    fill_methods.setdefault(v.attr, []).append(name)
+    fillers: Dict[str, str] = {c: ", ".join(sorted(g)) for c, g in fill_methods.items()}
     deps: Dict[str, Set[str]] = {}
     direct: Dict[str, Tuple[Set[str], Set[str]]] = {}
-    for c, g in fillers.items():
-        col = DepCollector(cls.name, caches)
-        it = Interp(model, col)
-        it.run(cls.methods[g], cls)
-        direct[c] = (col.deps, col.consulted - {c})
+    for c, gs in fill_methods.items():
+        d_all, c_all = set(), set()
+        for g in gs:
+            col = DepCollector(cls.name, caches)
+            it = Interp(model, col)
+            it.run(cls.methods[g], cls)
+            d_all |= col.deps
+            c_all |= col.consulted
+        direct[c] = (d_all, c_all - {c})
     for c in fillers:
         seen = set()
         todo = [c]
